@@ -169,7 +169,9 @@ func diffMap(old map[string]interface{}, newAny interface{}) interface{} {
 				d[k] = innerD
 			}
 		} else {
-			d[k] = newV
+			// A newly added field has no previous value to recurse against, so
+			// it is sent as a replacement: complex values must be wrapped.
+			d[k] = markReplaced(newV)
 		}
 	}
 
